@@ -341,9 +341,10 @@ class Report:
         }
         if self.notes:
             ev["coverage"]["notes"] = self.notes
-        os.makedirs(os.path.join(VERIF, "evidence"), exist_ok=True)
-        with open(os.path.join(VERIF, "evidence", self.pid + ".json"), "w") as f:
-            json.dump(ev, f, indent=1, sort_keys=True)
+        if os.environ.get("VERIF_NO_EVIDENCE") != "1":   # a --replay run does not overwrite the evidence of the check
+            os.makedirs(os.path.join(VERIF, "evidence"), exist_ok=True)
+            with open(os.path.join(VERIF, "evidence", self.pid + ".json"), "w") as f:
+                json.dump(ev, f, indent=1, sort_keys=True)
         for k in self.known:
             print("KNOWN-FINDING: property=%s %s" % (self.pid, k))
         for p, suffix in self.violations:
